@@ -261,3 +261,11 @@ func havocNative(v reflect.Value, depth int) {
 		}
 	}
 }
+
+// Abort stops the running operation like a process kill (no deferred function runs); CatchAbort(f) runs f and reports
+// whether it was aborted. Engine only.
+func Abort() { panic("zzvf.Abort has no native meaning") }
+func CatchAbort(f func()) bool {
+	f()
+	return false
+}
